@@ -286,6 +286,22 @@ def levels(tier, seed):
                 continue
             mode = ("fwd", "rev")[(idx + len(single)) % 2]
             single.append(dict(level="comp", idx=idx, comp=name, mode=mode, fam=fam, maxd=0, hist=[["goto", 0], ["tot"], ["gotom", 0, 1, nm], ["tot"]]))
+    # ... and transitions in which ONE array input changes while the summaries a cache might be keyed on stay the same (two entries
+    # exchanged: same sum / norm / extrema; off-diagonal part of a square matrix only: same diagonal; interior only: same end values)
+    for idx in range(len(COMP_MODELS)):
+        name, cfg = COMP_MODELS[idx]
+        mdl = comp_model(idx, fam)
+        for nm in mdl.wrt:
+            for kind in ("swap", "offdiag", "interior"):
+                if history.variant(mdl.points[0][nm], kind) is None:
+                    continue
+                mode = ("fwd", "rev")[(idx + len(single)) % 2]
+                single.append(dict(level="comp", idx=idx, comp=name, mode=mode, fam=fam, maxd=0, hist=[["goto", 0], ["tot"], ["gotov", 0, nm, kind], ["tot"]]))
+    for which in kd:
+        mdl = group_model(which, fam)
+        for nm in sorted(mdl.points[0]):
+            if history.variant(np.asarray(mdl.points[0][nm], dtype=float), "swap") is not None:
+                single.append(dict(level="group", which=which, mode=("fwd", "rev")[len(single) % 2], fam=fam, hist=[["goto", 0], ["tot"], ["gotov", 0, nm, "swap"], ["tot"]]))
     for which in kd:
         mdl = group_model(which, fam)
         names = sorted(set(k for pt in mdl.points for k in pt))
